@@ -255,3 +255,80 @@ class SimPath:
 
     def __truediv__(self, other):
         return SimPath(self.disk, os.path.join(self.p, os.fspath(other)))
+
+
+class RealDisk:
+    """Fault-free stratum on a REAL temporary directory: torch.save/torch.load are
+    still intercepted (to log and to map the plan's paths into the directory) but the
+    serialiser works on real file names, so OS-level behaviour of files (memory
+    mapping, truncation of a file another tensor is still backed by, ...) is real.
+    The directory is created on install and removed on uninstall."""
+
+    def __init__(self, run):
+        self.run = run
+        self.opens = []
+        self.completed = []
+        self.closed_ok = []
+        self.frozen = False
+        self.total_writes = 0
+        self.root = None
+        self._orig = {}
+
+    def arm(self, fault=None):
+        pass  # no faults in this stratum
+
+    def real(self, path):
+        return os.path.join(self.root, os.fspath(path).lstrip("/"))
+
+    def install(self):
+        import tempfile
+
+        import torch
+
+        self.root = tempfile.mkdtemp(prefix="qsim-realdisk-")
+        disk = self
+        orig_save, orig_load = torch.save, torch.load
+        self._orig = {"save": orig_save, "load": orig_load}
+
+        def save(obj, f, *a, **kw):
+            if isinstance(f, (str, os.PathLike)):
+                rp = disk.real(f)
+                os.makedirs(os.path.dirname(rp), exist_ok=True)
+                disk.opens.append((os.fspath(f), "wb"))
+                disk.run.log.add("disk", "open", os.fspath(f), "wb")
+                orig_save(obj, rp, *a, **kw)
+                disk.completed.append(os.fspath(f))
+                disk.total_writes += 1
+                disk.run.log.add("disk", "saved", os.fspath(f), os.path.getsize(rp))
+                return None
+            return orig_save(obj, f, *a, **kw)
+
+        def load(f, *a, **kw):
+            if isinstance(f, (str, os.PathLike)):
+                disk.run.log.add("disk", "load", os.fspath(f))
+                return orig_load(disk.real(f), *a, **kw)
+            return orig_load(f, *a, **kw)
+
+        torch.save = save
+        torch.load = load
+        return self
+
+    def uninstall(self):
+        import shutil
+
+        import torch
+
+        if self._orig:
+            torch.save = self._orig["save"]
+            torch.load = self._orig["load"]
+            self._orig = {}
+        if self.root:
+            shutil.rmtree(self.root, ignore_errors=True)
+            self.root = None
+
+    def __enter__(self):
+        return self.install()
+
+    def __exit__(self, *a):
+        self.uninstall()
+        return False
